@@ -21,7 +21,7 @@ func init() {
 	register(core.Plan{
 		Property: "C16", Level: "exploration",
 		Parts: func(tier string) []core.Part {
-			return []core.Part{{Name: "ranges", Bin: "plain", Batches: 1, TimeoutS: 1800}, {Name: "sessions", Bin: "plain", Batches: 1, TimeoutS: 1800}}
+			return []core.Part{{Name: "ranges", Bin: "plain", Batches: 1, TimeoutS: 600}, {Name: "sessions", Bin: "plain", Batches: 1, TimeoutS: 600}}
 		},
 		Assumptions: []string{
 			"reference interval complement internal/ref/ranges.go; received chunks are pairwise disjoint (identical resends aside)",
